@@ -2,18 +2,25 @@
  * Allocator stubs for the proofs about src/utils/ini.c (CBMC side only; listed in the
  * evidence `assumptions`).  Include after "src/utils/ini.c" and "specs/ini_spec.h".
  *
- * calloc / realloc / reallocarray are given bodies that
- *  - may fail (return NULL, errno = ENOMEM) at every call: the out-of-memory paths of
+ * Why.  CBMC 6.11 models a heap object of symbolic size as an unbounded byte array and
+ * every struct access to it as a byte operation on that array.  ini_line_alloc__int() asks
+ * for sizeof(ini_line_t) + <line length> + 16 bytes, so with the built-in calloc the parser
+ * ran out of 16 GB on 4 bytes of text (dfcc and plain); a case split over constant sizes
+ * made symbolic execution itself take > 10 min (dozens of candidate objects per access).
+ *
+ * Model.  calloc / realloc / reallocarray
+ *  - may fail at every call (NULL, errno = ENOMEM): the out-of-memory paths of
  *    ini_buf_parse / ini_val_set are part of the proofs;
- *  - are SIZE-SPECIALISED: a request of a size that occurs in the bounded harnesses
- *    (a line record of 0..VF_INI_SPLIT data bytes, the line-pointer table of 64 entries)
- *    is served by malloc(<constant>), so the new object has an exact, constant size.
- *    CBMC 6.11 treats a heap object of symbolic size as an unbounded byte array and every
- *    struct access to it as a byte operation: ini_buf_parse on 4 bytes of text ran out of
- *    16 GB that way; with the case split the same proof takes seconds.  Other sizes fall
- *    through to the generic symbolic-size allocation, so nothing is assumed about sizes;
- *  - realloc may return the SAME address when the new size fits into the old object
- *    (as a real allocator with slack does), otherwise a new object with the old content.
+ *  - serve a request of at most VF_INI_RECSZ bytes (a line record of <= VF_INI_CAP data
+ *    bytes) by a heap object of the CONSTANT size VF_INI_RECSZ and record the REQUESTED
+ *    size in the ghost table vf_ini_req[object]; the representation invariant
+ *    (specs/ini_spec.h) bounds data_size / data_allocated_size by the requested capacity.
+ *    Consequence, stated as assumption: an access beyond the requested size but inside
+ *    VF_INI_RECSZ is caught through the invariant / content postconditions, not by a
+ *    pointer check.  The 64-entry line-pointer table is served exactly; any other size
+ *    fails an assertion of the stub (the harness bounds never reach it);
+ *  - realloc may return the SAME address when the new size fits into the object (a real
+ *    allocator with slack does that), otherwise a new object with the old content.
  */
 #ifndef VF_STUBS_INI_H
 #define VF_STUBS_INI_H
@@ -22,97 +29,212 @@
 #include <string.h>
 #include <errno.h>
 
+
+/*
+ * memcpy, size-specialised.  CBMC's built-in model copies through a variable-length
+ * temporary (array theory; measured: one copy of symbolic length into a 98-byte record
+ * exhausts 16 GB together with the rest of ini_buf_parse).  The lengths that occur in the
+ * bounded harnesses (0..VF_MEMCPY_MAX, a job parameter) are served by a fixed-size block assignment, which
+ * is exactly memcpy for non-overlapping regions; the accesses are pointer-checked like any
+ * other assignment.  A longer copy fails the stub's assertion.
+ */
+#ifndef VF_MEMCPY_MAX
+#define VF_MEMCPY_MAX	20	/* <= 40; jobs set it to the longest copy their bounds allow */
+#endif
+#define VF_MEMCPY_CASE(k)							\
+	case (k): {								\
+		struct vf_blk##k { unsigned char b[(k)]; };			\
+		*(struct vf_blk##k *)dst = *(const struct vf_blk##k *)src;	\
+		break;								\
+	}
+void *
+memcpy(void *dst, const void *src, size_t n) {
+
+	switch (n) {
+	case 0:
+		break;
+#if VF_MEMCPY_MAX >= 1
+	VF_MEMCPY_CASE(1)
+#endif
+#if VF_MEMCPY_MAX >= 2
+	VF_MEMCPY_CASE(2)
+#endif
+#if VF_MEMCPY_MAX >= 3
+	VF_MEMCPY_CASE(3)
+#endif
+#if VF_MEMCPY_MAX >= 4
+	VF_MEMCPY_CASE(4)
+#endif
+#if VF_MEMCPY_MAX >= 5
+	VF_MEMCPY_CASE(5)
+#endif
+#if VF_MEMCPY_MAX >= 6
+	VF_MEMCPY_CASE(6)
+#endif
+#if VF_MEMCPY_MAX >= 7
+	VF_MEMCPY_CASE(7)
+#endif
+#if VF_MEMCPY_MAX >= 8
+	VF_MEMCPY_CASE(8)
+#endif
+#if VF_MEMCPY_MAX >= 9
+	VF_MEMCPY_CASE(9)
+#endif
+#if VF_MEMCPY_MAX >= 10
+	VF_MEMCPY_CASE(10)
+#endif
+#if VF_MEMCPY_MAX >= 11
+	VF_MEMCPY_CASE(11)
+#endif
+#if VF_MEMCPY_MAX >= 12
+	VF_MEMCPY_CASE(12)
+#endif
+#if VF_MEMCPY_MAX >= 13
+	VF_MEMCPY_CASE(13)
+#endif
+#if VF_MEMCPY_MAX >= 14
+	VF_MEMCPY_CASE(14)
+#endif
+#if VF_MEMCPY_MAX >= 15
+	VF_MEMCPY_CASE(15)
+#endif
+#if VF_MEMCPY_MAX >= 16
+	VF_MEMCPY_CASE(16)
+#endif
+#if VF_MEMCPY_MAX >= 17
+	VF_MEMCPY_CASE(17)
+#endif
+#if VF_MEMCPY_MAX >= 18
+	VF_MEMCPY_CASE(18)
+#endif
+#if VF_MEMCPY_MAX >= 19
+	VF_MEMCPY_CASE(19)
+#endif
+#if VF_MEMCPY_MAX >= 20
+	VF_MEMCPY_CASE(20)
+#endif
+#if VF_MEMCPY_MAX >= 21
+	VF_MEMCPY_CASE(21)
+#endif
+#if VF_MEMCPY_MAX >= 22
+	VF_MEMCPY_CASE(22)
+#endif
+#if VF_MEMCPY_MAX >= 23
+	VF_MEMCPY_CASE(23)
+#endif
+#if VF_MEMCPY_MAX >= 24
+	VF_MEMCPY_CASE(24)
+#endif
+#if VF_MEMCPY_MAX >= 25
+	VF_MEMCPY_CASE(25)
+#endif
+#if VF_MEMCPY_MAX >= 26
+	VF_MEMCPY_CASE(26)
+#endif
+#if VF_MEMCPY_MAX >= 27
+	VF_MEMCPY_CASE(27)
+#endif
+#if VF_MEMCPY_MAX >= 28
+	VF_MEMCPY_CASE(28)
+#endif
+#if VF_MEMCPY_MAX >= 29
+	VF_MEMCPY_CASE(29)
+#endif
+#if VF_MEMCPY_MAX >= 30
+	VF_MEMCPY_CASE(30)
+#endif
+#if VF_MEMCPY_MAX >= 31
+	VF_MEMCPY_CASE(31)
+#endif
+#if VF_MEMCPY_MAX >= 32
+	VF_MEMCPY_CASE(32)
+#endif
+#if VF_MEMCPY_MAX >= 33
+	VF_MEMCPY_CASE(33)
+#endif
+#if VF_MEMCPY_MAX >= 34
+	VF_MEMCPY_CASE(34)
+#endif
+#if VF_MEMCPY_MAX >= 35
+	VF_MEMCPY_CASE(35)
+#endif
+#if VF_MEMCPY_MAX >= 36
+	VF_MEMCPY_CASE(36)
+#endif
+#if VF_MEMCPY_MAX >= 37
+	VF_MEMCPY_CASE(37)
+#endif
+#if VF_MEMCPY_MAX >= 38
+	VF_MEMCPY_CASE(38)
+#endif
+#if VF_MEMCPY_MAX >= 39
+	VF_MEMCPY_CASE(39)
+#endif
+#if VF_MEMCPY_MAX >= 40
+	VF_MEMCPY_CASE(40)
+#endif
+	default:
+		__CPROVER_assert(0, "memcpy stub: length within the modelled range 0..VF_MEMCPY_MAX");
+		__CPROVER_assume(0);
+	}
+	return (dst);
+}
+
+/*
+ * memchr / memrchr: CBMC 6.11 ships no model ("no body for callee memchr": the result would
+ * be an arbitrary pointer).  Reference semantics: first / last occurrence inside [s, s+n).
+ */
+void *
+memchr(const void *s, int c, size_t n) {
+	size_t i;
+
+	for (i = 0; i < n; i ++) {
+		if (((const unsigned char *)s)[i] == (unsigned char)c)
+			return ((void *)(((const unsigned char *)s) + i));
+	}
+	return (NULL);
+}
+
+void *
+memrchr(const void *s, int c, size_t n) {
+	size_t i;
+
+	for (i = n; i > 0; i --) {
+		if (((const unsigned char *)s)[i - 1] == (unsigned char)c)
+			return ((void *)(((const unsigned char *)s) + (i - 1)));
+	}
+	return (NULL);
+}
+
 _Bool nondet_vf_alloc_fails(void);
 _Bool nondet_vf_realloc_in_place(void);
 
-#ifndef VF_INI_SPLIT
-#define VF_INI_SPLIT	8	/* data bytes of a line record served by constant-size objects */
-#endif
-#define VF_INI_REC(n)	(sizeof(ini_line_t) + (n) + INI_LINE_ALLOC_PADDING)
 #define VF_INI_TABLE	(INI_LINES_PREALLOC * sizeof(ini_line_p))
 
-/* one case: constant-size object, zero-filled with a constant-size memset if asked */
-#define VF_ALLOC_CASE(total, k, zero)						\
-	if ((total) == (k)) {							\
-		void *q_ = malloc((k));						\
-		__CPROVER_assume(q_ != NULL);					\
-		if (zero)							\
-			memset(q_, 0, (k));					\
-		return (q_);							\
-	}
 static inline void *
-vf_ini_alloc_split(size_t total, int zero) {
+vf_ini_alloc(size_t total, int zero) {
 	void *p;
 
-	VF_ALLOC_CASE(total, VF_INI_TABLE, zero);
-#if VF_INI_SPLIT >= 0
-	VF_ALLOC_CASE(total, VF_INI_REC(0), zero);
-#endif
-#if VF_INI_SPLIT >= 1
-	VF_ALLOC_CASE(total, VF_INI_REC(1), zero);
-#endif
-#if VF_INI_SPLIT >= 2
-	VF_ALLOC_CASE(total, VF_INI_REC(2), zero);
-#endif
-#if VF_INI_SPLIT >= 3
-	VF_ALLOC_CASE(total, VF_INI_REC(3), zero);
-#endif
-#if VF_INI_SPLIT >= 4
-	VF_ALLOC_CASE(total, VF_INI_REC(4), zero);
-#endif
-#if VF_INI_SPLIT >= 5
-	VF_ALLOC_CASE(total, VF_INI_REC(5), zero);
-#endif
-#if VF_INI_SPLIT >= 6
-	VF_ALLOC_CASE(total, VF_INI_REC(6), zero);
-#endif
-#if VF_INI_SPLIT >= 7
-	VF_ALLOC_CASE(total, VF_INI_REC(7), zero);
-#endif
-#if VF_INI_SPLIT >= 8
-	VF_ALLOC_CASE(total, VF_INI_REC(8), zero);
-#endif
-#if VF_INI_SPLIT >= 9
-	VF_ALLOC_CASE(total, VF_INI_REC(9), zero);
-#endif
-#if VF_INI_SPLIT >= 10
-	VF_ALLOC_CASE(total, VF_INI_REC(10), zero);
-#endif
-#if VF_INI_SPLIT >= 11
-	VF_ALLOC_CASE(total, VF_INI_REC(11), zero);
-#endif
-#if VF_INI_SPLIT >= 12
-	VF_ALLOC_CASE(total, VF_INI_REC(12), zero);
-#endif
-#if VF_INI_SPLIT >= 13
-	VF_ALLOC_CASE(total, VF_INI_REC(13), zero);
-#endif
-#if VF_INI_SPLIT >= 14
-	VF_ALLOC_CASE(total, VF_INI_REC(14), zero);
-#endif
-#if VF_INI_SPLIT >= 15
-	VF_ALLOC_CASE(total, VF_INI_REC(15), zero);
-#endif
-#if VF_INI_SPLIT >= 16
-	VF_ALLOC_CASE(total, VF_INI_REC(16), zero);
-#endif
-#if VF_INI_SPLIT >= 17
-	VF_ALLOC_CASE(total, VF_INI_REC(17), zero);
-#endif
-#if VF_INI_SPLIT >= 18
-	VF_ALLOC_CASE(total, VF_INI_REC(18), zero);
-#endif
-#if VF_INI_SPLIT >= 19
-	VF_ALLOC_CASE(total, VF_INI_REC(19), zero);
-#endif
-#if VF_INI_SPLIT >= 20
-	VF_ALLOC_CASE(total, VF_INI_REC(20), zero);
-#endif
-	p = malloc(total); /* any other size: generic symbolic-size object */
-	__CPROVER_assume(p != NULL);
-	if (zero)
-		memset(p, 0, total);
-	return (p);
+	if (total <= VF_INI_RECSZ) { /* line record */
+		p = malloc(VF_INI_RECSZ);
+		__CPROVER_assume(p != NULL);
+		if (zero)
+			memset(p, 0, VF_INI_RECSZ);
+		VF_INI_REQ(p) = total;
+		return (p);
+	}
+	if (total == VF_INI_TABLE) { /* line-pointer table */
+		p = malloc(VF_INI_TABLE);
+		__CPROVER_assume(p != NULL);
+		if (zero)
+			memset(p, 0, VF_INI_TABLE);
+		VF_INI_REQ(p) = total;
+		return (p);
+	}
+	/* any other size is outside the model: reported, never silently accepted */
+	__CPROVER_assert(0, "allocator stub: requested size is a line record or the 64-entry table");
+	__CPROVER_assume(0);
+	return (NULL);
 }
 
 void *
@@ -126,7 +248,7 @@ calloc(size_t nmemb, size_t size) {
 		errno = ENOMEM;
 		return (NULL);
 	}
-	return (vf_ini_alloc_split(nmemb * size, 1));
+	return (vf_ini_alloc(nmemb * size, 1));
 }
 
 void *
@@ -139,13 +261,15 @@ realloc(void *ptr, size_t size) {
 			errno = ENOMEM;
 			return (NULL);
 		}
-		return (vf_ini_alloc_split(size, 0));
+		return (vf_ini_alloc(size, 0));
 	}
 	__CPROVER_assert(__CPROVER_POINTER_OFFSET(ptr) == 0 && __CPROVER_r_ok(ptr, 0),
 	    "realloc: argument is a live heap object");
-	old = __CPROVER_OBJECT_SIZE(ptr);
-	if (size != 0 && size <= old && nondet_vf_realloc_in_place())
-		return (ptr); /* the allocator had room: same address */
+	old = VF_INI_REQ(ptr);
+	if (size != 0 && size <= __CPROVER_OBJECT_SIZE(ptr) && nondet_vf_realloc_in_place()) {
+		VF_INI_REQ(ptr) = size; /* the allocator had room: same address */
+		return (ptr);
+	}
 	if (size == 0) {
 		free(ptr);
 		return (NULL);
@@ -154,8 +278,18 @@ realloc(void *ptr, size_t size) {
 		errno = ENOMEM;
 		return (NULL);
 	}
-	p = vf_ini_alloc_split(size, 0);
-	memcpy(p, ptr, (old < size) ? old : size);
+	p = vf_ini_alloc(size, 0);
+	/* old content: both objects have one of the two constant sizes of the model; copying
+	 * all of the smaller one is a superset of the min(old, new) bytes realloc preserves */
+	if (__CPROVER_OBJECT_SIZE(ptr) == VF_INI_RECSZ && __CPROVER_OBJECT_SIZE(p) == VF_INI_RECSZ) {
+		struct vf_rec { unsigned char b[VF_INI_RECSZ]; };
+		*(struct vf_rec *)p = *(const struct vf_rec *)ptr;
+	} else {
+		__CPROVER_assert(__CPROVER_OBJECT_SIZE(p) == VF_INI_TABLE,
+		    "realloc stub: line records stay line records");
+		__CPROVER_array_copy((unsigned char *)p, (const unsigned char *)ptr);
+	}
+	(void)old;
 	free(ptr);
 	return (p);
 }
